@@ -11,6 +11,7 @@ from __future__ import annotations
 
 import core
 import designlib
+import ghelib
 import searchlib
 
 PROPERTY = "C02"
@@ -64,6 +65,44 @@ def boundary_cases(rng, n):
         cap = rng.choice([None, 2, c, c + 1, max(2, c - 1), 10 ** 6, counts[0], counts[0] + 1])
         out.append(("b1d", (counts, elo, ehi, cap, rng.random() < 0.5, 15)))
     return out
+
+
+def cli_worker_job(job):
+    """The file-driven entry (`_run_manager_from_cli_worker`) on an input file written by the tool itself:
+    how does a run whose design cannot be met end?  Returns (outcome, detail)."""
+    import os
+    import shutil
+    import tempfile
+    from pathlib import Path
+
+    os.environ["OMP_NUM_THREADS"] = "1"
+    kind, cfg = job
+    d = Path(tempfile.mkdtemp(prefix="c02_"))
+    try:
+        from ghedesigner.manager import _run_manager_from_cli_worker
+        with ghelib.quiet():
+            m = ghelib.build_manager(cfg)
+            inp = d / "in.json"
+            m.write_input_file(inp)
+            try:
+                rc = _run_manager_from_cli_worker(inp, d / "out")
+                files = sorted(p.name for p in (d / "out").iterdir()) if (d / "out").exists() else []
+                return ("returned", {"rc": rc, "files": files})
+            except BaseException as e:  # noqa: BLE001  (SystemExit included)
+                return ("ValueError" if isinstance(e, ValueError) else "raise " + type(e).__name__, {"message": str(e)[:200]})
+    except Exception as e:  # noqa: BLE001
+        return ("harness-error", {"message": f"{type(e).__name__}: {e}"[:300]})
+    finally:
+        shutil.rmtree(d, ignore_errors=True)
+
+
+def cli_jobs(rng):
+    phys = ghelib.default_physics()
+    base = {"phys": phys, "pipe": "SINGLEUTUBE", "months": 12, "max_eft": 35.0, "min_eft": 5.0, "max_h": 135.0, "min_h": 60.0,
+            "flow": phys["flow"], "geom": ("NEARSQUARE", 6.0, 20.0 + rng.randrange(0, 10))}
+    big = [x * 8.0 for x in ghelib.atlanta_loads()]
+    ok = [x * 0.05 for x in ghelib.atlanta_loads()]
+    return [("unmet-no-flag", {**base, "loads": big, "cont": False}), ("unmet-flag", {**base, "loads": big, "cont": True}), ("met", {**base, "loads": ok, "cont": False})]
 
 
 def run(ctx: core.Ctx):
@@ -165,6 +204,33 @@ def run(ctx: core.Ctx):
                     want_h = cfg["max_h"] if cls == "tooBig" else cfg["min_h"]
                     if r["outcome"] != "design" or r["nbh"] != want_n or abs(r["H"] - want_h) > 1e-9:
                         ctx.finding("unmet-fallback-wrong", f"{g}: unmet ({cls}) with the flag returned {r.get('nbh')} x {r.get('H')}, expected {want_n} x {want_h}", rep)
+        # the same policy for the nested rectangular-family searches, decided from the outer search's first
+        # three evaluations (smallest field at min and max height, largest outer field at max height)
+        if g in ("BIRECTANGLE", "BIZONEDRECTANGLE", "BIRECTANGLECONSTRAINED") and len(r.get("evals", [])) >= 3:
+            ev = r["evals"]
+            if [e["where"] for e in ev[:3]] == ["outer"] * 3 or g != "BIRECTANGLE":
+                cls = designlib.classify_pre(ev[0]["excess"], ev[1]["excess"], ev[2]["excess"])
+                if cls == "tooSmall" and g == "BIRECTANGLE":
+                    ctx.count("real-unmet-nested:tooSmall" + (":cont" if cfg["cont"] else ":fail"))
+                    if not cfg["cont"] and r["outcome"] != "ValueError":
+                        ctx.finding("unmet-not-an-error", f"{g}: unmet design (tooSmall) without the flag ended with {r['outcome']}", rep)
+                    if cfg["cont"] and (r["outcome"] != "design" or r["nbh"] != ev[0]["nbh"] or abs(r["H"] - cfg["min_h"]) > 1e-9):
+                        ctx.finding("unmet-fallback-wrong", f"{g}: loads too small with the flag: returned {r['outcome']} {r.get('nbh')} x {r.get('H')}, expected the smallest candidate ({ev[0]['nbh']} borehole) at the minimum height {cfg['min_h']}", rep)
+    # ---------------- (iii-b) the file-driven entry point on unmet and met designs
+    jobs = cli_jobs(rng)
+    for (kind, cfg), (outc, det) in zip(jobs, core.pool_map(cli_worker_job, jobs)):
+        ctx.case(("cli-worker", kind, cfg["geom"][2]), True, {"cli_worker": kind, "outcome": outc})
+        ctx.count(f"cli-worker:{kind}:{outc.split()[0]}")
+        rep = {"entry": "_run_manager_from_cli_worker on the file written by write_input_file", "kind": kind, "geom": cfg["geom"], "loads": "atlanta x " + ("8" if kind.startswith("unmet") else "0.05"),
+               "continue_if_design_unmet": cfg["cont"], "outcome": outc, **det}
+        if outc == "harness-error":
+            ctx.infra(f"cli-worker {kind}: {det}")
+        elif outc.startswith("raise"):
+            ctx.finding(f"cli-exception-type-{outc.split()[1]}", f"file-driven run ({kind}) ended with {outc}: {det.get('message')}", rep)
+        elif kind == "unmet-no-flag" and outc != "ValueError":
+            ctx.finding("cli-unmet-not-an-error", f"file-driven run with loads too large and no continue flag {outc} {det} instead of ending with the search's ValueError", rep)
+        elif kind != "unmet-no-flag" and outc != "returned":
+            ctx.finding("cli-design-run-failed", f"file-driven run ({kind}) ended with {outc}: {det.get('message')}", rep)
     # ---------------- (iv) a second project on the SAME manager (only loads and geometry re-applied)
     by_id = {r["id"]: (c, r) for c, r in zip(cfgs, recs)}
     for cfg, r in zip(cfgs, recs):
